@@ -160,6 +160,69 @@ Theorem C04_sub_ignores_boundaries : forall a pat b, IgnorePat.lmatch IgnorePat.
 Proof. exact IgnorePatFacts.sub_ignores_boundaries. Qed.
 Print Assumptions C04_sub_ignores_boundaries.
 
+(* 11. Linters whose suppression is the shared parser and nothing else - nesting, srp, performance and the two cross-file linters
+       dry and stringly-typed (whose violation filters the translator shape-checks: Gen.xfile_shared_filters) - suppress exactly what
+       the specification says, for every quirk vector, in particular the one claimed for the current tree, on every file of the
+       domain that avoids its defect classes.  (dry's own `# dry: ignore-*` comments are C03's subject.) *)
+Theorem C04_shared_only_linters_exact : forall q pkg lang a v r, In pkg shared_only ->
+  file_ok a = true -> target_ok a v = true -> nonempty r = true -> avoids q a = true ->
+  suppressed q (pipeline_of pkg lang) (render a) v r = spec false a v r.
+Proof. exact shared_only_linters_exact. Qed.
+Print Assumptions C04_shared_only_linters_exact.
+
+Theorem C04_shared_only_table :
+  forallb (fun p => smem p shared_parser_users) shared_only = true /\ forallb (fun p => smem p shared_only) xfile_shared_filters = true.
+Proof. exact shared_only_table. Qed.
+Print Assumptions C04_shared_only_table.
+
+(* 12. file-header.  Violations found in an existing header pass through the shared parser, the linter's own file-level test (the
+       shared marker and rule-list functions plus two custom needles) and a custom same-line needle: on every file of the domain
+       that is exactly the specification.  The "no header at all" violation bypasses the violation filter: it honours the
+       file-level directives of the header window and nothing else, on whatever line it is reported (refuted against the
+       specification in Props/C04Known.v). *)
+Theorem C04_file_header_filtered_exact : forall q a v r,
+  file_ok a = true -> target_ok a v = true -> nonempty r = true -> avoids q a = true ->
+  suppressed q (pipeline_of "file_header" "py") (render a) v r = spec false a v r.
+Proof. exact (fun q a v r => file_header_filtered_exact q a v r). Qed.
+Print Assumptions C04_file_header_filtered_exact.
+
+Theorem C04_file_header_missing_file_level_only : forall q a v r,
+  file_ok a = true -> nonempty r = true -> avoids q a = true ->
+  suppressed q (pipeline_of "file_header_missing" "py") (render a) v r = spec_file a r.
+Proof. exact (fun q a v r => file_header_missing_exact q a v r). Qed.
+Print Assumptions C04_file_header_missing_file_level_only.
+
+(* 13. magic-numbers and print-statements in files with `#` comments (.py, .rs): after the shared parser they apply a generic same-line
+       test (`# thailint: ignore` not followed by a bracket before the next `#`) or accept `# noqa`.  On every file of the domain that
+       does not contain the word "noqa" (the linters' other suppression comment, not a thailint directive) this adds nothing: the
+       pipeline suppresses exactly what the specification says.  (The `//` variant of the TypeScript files is validated only.) *)
+Theorem C04_generic_hash_pipeline_exact : forall q a v r,
+  file_ok a = true -> target_ok a v = true -> nonempty r = true -> avoids q a = true -> noqa_free a = true ->
+  suppressed q (PSharedGeneric magic_generic_hash) (render a) v r = spec false a v r.
+Proof. exact generic_hash_pipeline_exact. Qed.
+Print Assumptions C04_generic_hash_pipeline_exact.
+
+Theorem C04_generic_hash_table : forall lang, String.eqb lang "ts" = false ->
+  pipeline_of "magic_numbers" lang = PSharedGeneric magic_generic_hash /\ pipeline_of "print_statements" lang = PSharedGeneric print_generic_hash
+  /\ print_generic_hash = magic_generic_hash.
+Proof. exact generic_tables. Qed.
+Print Assumptions C04_generic_hash_table.
+
+(* 14. collection-pipeline and stateless-class: after the shared parser they run their own file-level test over the header window and
+       their own same-line test (both on the lowered text, with their own bracket regex and comma split).  On every file of the
+       domain these add nothing: the pipeline suppresses exactly what the specification says.  (Rests on: str.lower commutes with
+       strip and split(","), and rule matching ignores letter case.) *)
+Theorem C04_tl_pipeline_exact : forall q a v r,
+  file_ok a = true -> target_ok a v = true -> nonempty r = true -> avoids q a = true ->
+  suppressed q (PSharedTl tl_needles) (render a) v r = spec false a v r.
+Proof. exact tl_pipeline_exact. Qed.
+Print Assumptions C04_tl_pipeline_exact.
+
+Theorem C04_tl_table : forall lang,
+  pipeline_of "collection_pipeline" lang = PSharedTl tl_needles /\ pipeline_of "stateless_class" lang = PSharedTl tl_needles.
+Proof. exact tl_table. Qed.
+Print Assumptions C04_tl_table.
+
 (* non-vacuity: a file of the domain with all four forms, both styles, a bare directive and spelled-out rule lists, on which the
    specification suppresses some (line, rule) pairs and not others, and on which the FAITHFUL model (the vector claimed for the current
    tree) computes exactly that *)
@@ -173,6 +236,7 @@ Example C04_nonvacuous :
          [(4, "nesting.excessive-depth"); (4, "magic-numbers.numeric-literal"); (5, "magic-numbers.numeric-literal"); (5, "nesting.excessive-depth");
           (7, "improper-logging.print-statement"); (9, "improper-logging.print-statement"); (9, "dry.duplicate-code"); (10, "cqs")]
      = [true; false; true; false; true; false; true; true]
+  /\ noqa_free ex_file = true
   /\ map (fun vr => should_ignore ignore_actual false (render ex_file) (fst vr) (snd vr))
          [(4, "nesting.excessive-depth"); (4, "magic-numbers.numeric-literal"); (7, "improper-logging.print-statement"); (9, "improper-logging.print-statement");
           (9, "dry.duplicate-code"); (10, "cqs")]
